@@ -11,13 +11,17 @@
 package db
 
 import (
+	"bufio"
 	"bytes"
+	"encoding/json"
 	"fmt"
 	"os"
 	"os/exec"
 	"path/filepath"
 	"sort"
+	"strconv"
 	"strings"
+	"syscall"
 	"testing"
 	"time"
 
@@ -264,6 +268,11 @@ func (w *crashWorld) run(p *simkit.Program) {
 				w.violate("acknowledged-write-not-readable", "id %d: err=%v", id, err)
 			}
 			w.log.Add("get %d", id)
+		case "realkill":
+			w.realKill(st)
+			if w.res.HarnessErr != "" {
+				return
+			}
 		case "kill":
 			if w.cur == "" || w.prev == "" {
 				w.log.Add("kill skipped (nothing in flight)")
@@ -426,6 +435,211 @@ func applyPrefix(dir string, diffs []fileDiff, cut int) error {
 	return nil
 }
 
+// ---------------------------------------------------------------------------------------------
+// real kills: a child process (this test binary re-executed) runs a stream of stores on a copy of
+// the live store and is killed with SIGKILL - either exactly after an acknowledgement (it stops
+// itself with SIGSTOP there, so the kill point is deterministic) or at whatever instant the
+// parent has read a given number of acknowledgements (the kill then lands inside later stores).
+
+type childOp struct {
+	ID      int64 `json:"id"`
+	Variant int64 `json:"variant"`
+	Stop    bool  `json:"stop"`
+}
+
+func TestVerifCrashChild(t *testing.T) {
+	dir := os.Getenv("VERIF_CHILD_DIR")
+	if dir == "" {
+		t.Skip("child of crashsim")
+	}
+	var plan []childOp
+	if err := json.Unmarshal([]byte(os.Getenv("VERIF_CHILD_PLAN")), &plan); err != nil {
+		fmt.Println("ERR plan", err)
+		os.Exit(3)
+	}
+	d, err := Open(dir)
+	if err != nil {
+		fmt.Println("ERR open", err)
+		os.Exit(3)
+	}
+	out := bufio.NewWriter(os.Stdout)
+	for k, op := range plan {
+		v, _ := crashVAA(op.ID, op.Variant)
+		if err := d.StoreSignedVAA(v); err != nil {
+			fmt.Fprintln(out, "ERR store", err)
+			out.Flush()
+			os.Exit(3)
+		}
+		fmt.Fprintf(out, "ACK %d\n", k)
+		out.Flush()
+		if op.Stop {
+			// The group stop is initiated by whichever thread the kernel picks for the signal, so this
+			// thread may run on for some microseconds: park for good, the parent kills us while stopped.
+			syscall.Kill(os.Getpid(), syscall.SIGSTOP)
+			select {}
+		}
+	}
+	fmt.Fprintln(out, "END")
+	out.Flush()
+	select {} // wait for the kill
+}
+
+func (w *crashWorld) realKill(st simkit.Step) {
+	// the child works on a copy of the live store
+	if err := w.d.Close(); err != nil {
+		w.violate("close-failed", "%v", err)
+		return
+	}
+	dir := w.newDir("child")
+	if err := snapshot(w.live, dir); err != nil {
+		w.res.HarnessErr = err.Error()
+		return
+	}
+	r := simkit.NewRng(uint64(st.A), "realkill")
+	n := 3 + r.Intn(6)
+	var plan []childOp
+	for i := 0; i < n; i++ {
+		plan = append(plan, childOp{ID: int64(r.Intn(crashUniverse)), Variant: int64(r.Intn(24))})
+	}
+	killAfter := int(st.B) % n
+	stopMode := st.C%2 == 0
+	if stopMode {
+		plan[killAfter].Stop = true
+	}
+	pj, _ := json.Marshal(plan)
+	cmd := exec.Command(os.Args[0], "-test.run", "^TestVerifCrashChild$", "-test.count", "1")
+	cmd.Env = append(os.Environ(), "VERIF_CHILD_DIR="+dir, "VERIF_CHILD_PLAN="+string(pj), "VERIF_OUT=")
+	stdout, _ := cmd.StdoutPipe()
+	if err := cmd.Start(); err != nil {
+		w.res.HarnessErr = "child: " + err.Error()
+		return
+	}
+	sc := bufio.NewScanner(stdout)
+	acked := -1
+	for sc.Scan() {
+		line := sc.Text()
+		if len(line) > 4 && line[:4] == "ACK " {
+			acked, _ = strconv.Atoi(line[4:])
+			if acked >= killAfter {
+				break
+			}
+		} else if len(line) >= 3 && line[:3] == "ERR" {
+			w.violate("store-failed", "child: %s", line)
+			break
+		}
+	}
+	if stopMode {
+		// wait until the child has really stopped itself, then kill it
+		var ws syscall.WaitStatus
+		for i := 0; i < 2000; i++ {
+			pid, _ := syscall.Wait4(cmd.Process.Pid, &ws, syscall.WUNTRACED|syscall.WNOHANG, nil)
+			if pid == cmd.Process.Pid && ws.Stopped() {
+				break
+			}
+			time.Sleep(time.Millisecond)
+		}
+		w.stats.Fault("sigkill-after-acknowledgement")
+	} else {
+		w.stats.Fault("sigkill-during-stream")
+	}
+	cmd.Process.Signal(syscall.SIGKILL)
+	late := 0
+	for sc.Scan() {
+		late++ // acknowledgements the parent had not read when it killed the child
+	}
+	cmd.Wait()
+	if stopMode && late > 0 {
+		w.res.HarnessErr = fmt.Sprintf("child did not stop after acknowledgement %d: %d more lines", killAfter, late)
+		return
+	}
+	w.kills++
+	if acked < killAfter {
+		w.res.HarnessErr = "child ended before the kill point"
+		return
+	}
+	// model: operations 0..acked are acknowledged. In stop mode nothing else can have happened; in
+	// stream mode later operations may have been applied fully, partly or not at all.
+	model := copyModel(w.acked)
+	allowed := map[int64][][]byte{}
+	for k, op := range plan {
+		_, exp := crashVAA(op.ID, op.Variant)
+		id := op.ID % crashUniverse
+		if k <= acked {
+			model[id] = exp
+			allowed[id] = nil
+		} else if !stopMode {
+			allowed[id] = append(allowed[id], exp)
+		}
+	}
+	w.log.Add("realkill plan=%s acked=%d killAfter=%d stop=%v", string(pj), acked, killAfter, stopMode)
+	d, err := Open(dir)
+	w.states++
+	if err != nil {
+		w.violate("store-does-not-reopen-after-kill", "after SIGKILL (acknowledged %d of %d stores): db.Open failed: %v", acked+1, n, err)
+		return
+	}
+	for i := int64(0); i < crashUniverse; i++ {
+		b, err := d.GetSignedVAABytes(crashID(i))
+		if err != nil && err != ErrVAANotFound {
+			w.violate("lookup-error-after-kill", "after SIGKILL: lookup %d: %v", i, err)
+			continue
+		}
+		ok := bytes.Equal(b, model[i])
+		for _, alt := range allowed[i] {
+			ok = ok || bytes.Equal(b, alt)
+		}
+		if !ok {
+			switch {
+			case b == nil:
+				w.violate("acknowledged-write-lost", "after SIGKILL right after the acknowledgement of store #%d: id %d is not found", acked, i)
+			case model[i] == nil:
+				w.violate("phantom-entry-after-kill", "after SIGKILL: id %d was never acknowledged but returns %d bytes", i, len(b))
+			default:
+				w.violate("acknowledged-write-altered", "after SIGKILL: id %d returns bytes that are neither the acknowledged VAA nor a later in-flight one", i)
+			}
+		}
+		if b != nil {
+			model[i] = b
+		} else {
+			delete(model, i)
+		}
+	}
+	if err := d.Close(); err != nil {
+		w.violate("close-after-recovery-failed", "%v", err)
+		return
+	}
+	if !stopMode {
+		// where a kill during the stream lands is not under the simulator's control: the recovered
+		// store is verified and then set aside, the workload goes on from the pre-kill store so that
+		// the rest of the run (and its canonical log) stays a function of the seed
+		os.RemoveAll(dir)
+		d0, err := Open(w.live)
+		if err != nil {
+			w.violate("store-does-not-reopen-after-kill", "reopen of the live store: %v", err)
+			return
+		}
+		w.d = d0
+		w.log.Add("realkill (stream mode): %d stores", n)
+		return
+	}
+	// continue on the recovered store (after a clean close/reopen, see the kill step)
+	d, err = Open(dir)
+	if err != nil {
+		w.violate("store-does-not-reopen-after-kill", "reopen of the recovered store: %v", err)
+		return
+	}
+	os.RemoveAll(w.live)
+	if w.prev != "" {
+		os.RemoveAll(w.prev)
+	}
+	if w.cur != "" {
+		os.RemoveAll(w.cur)
+	}
+	w.prev, w.cur = "", ""
+	w.live, w.d, w.acked = dir, d, model
+	w.log.Add("realkill: %d stores, stop-mode=%v plan=%s acked=%d killAfter=%d", n, stopMode, string(pj), acked, killAfter)
+}
+
 type crashHarness struct{}
 
 func (crashHarness) Name() string { return "crashsim" }
@@ -445,7 +659,11 @@ func (crashHarness) Gen(seed uint64, prop, tier string) *simkit.Program {
 				add("get", int64(r.Intn(crashUniverse)), 0, 0, 0)
 			}
 		}
-		add("kill", int64(r.Intn(1<<30)), int64(3+r.Intn(5)), int64(r.Intn(8)), int64(r.Intn(3)))
+		if r.P(0.35) {
+			add("realkill", int64(r.Intn(1<<30)), int64(r.Intn(8)), int64(r.Intn(4)), 0)
+		} else {
+			add("kill", int64(r.Intn(1<<30)), int64(3+r.Intn(5)), int64(r.Intn(8)), int64(r.Intn(3)))
+		}
 	}
 	add("get", int64(r.Intn(crashUniverse)), 0, 0, 0)
 	return p
@@ -484,7 +702,7 @@ func (crashHarness) Exec(p *simkit.Program) *simkit.Result {
 	w.stats.ProbeN("kill-cycles", int64(w.kills))
 	res.Faults, res.Probes = w.stats.Faults, w.stats.Probes
 	res.Log, res.LogHash = w.log.Lines(), w.log.Hash()
-	res.NonTrivial = w.kills > 0 && w.torn > 0
+	res.NonTrivial = w.kills > 0
 	return res
 }
 
